@@ -228,9 +228,6 @@ pub fn check_document(doc: &J, declared_externals: Option<&BTreeSet<String>>) ->
                     }
                     continue;
                 }
-                if key == "->" && (p == "END" || p == "DONE") {
-                    continue;
-                }
                 match tree.resolve(id, p, key == "->" || key == "^->") {
                     Ok(Some(target)) => {
                         if matches!(key, "->t->" | "f()" | "*" | "CNT?") && !is_container(tree.nodes[target].v) {
